@@ -25,6 +25,8 @@ type ruleCfg struct {
 	SetsTag bool   `json:"tag,omitempty"`
 	// Fault: a faulty construct executed after the rule's end event; the rule must fail with an error
 	Fault string `json:"fault,omitempty"`
+	// Tricky: statements that must simply complete (e.g. a loop whose body changes what it ranges over)
+	Tricky string `json:"tricky,omitempty"`
 }
 
 type modelCfg struct {
@@ -106,6 +108,9 @@ func (c modelCfg) specs() []gx.RuleSpec {
 		}
 		if r.SetsTag {
 			sp.Extra += "\n  stag.StopTag = true"
+		}
+		if r.Tricky != "" {
+			sp.Extra += "\n  " + r.Tricky
 		}
 		sp.After = r.Fault
 		rs = append(rs, sp)
